@@ -56,11 +56,16 @@ let process_runs (type sh ts l op ret) (c : (sh, ts, l, op, ret) comp) (s : scn)
       ((c.prefill s.opts s.pre :: progs) @ [c.final_prog s.opts s.pre s.threads]) in
   let (cfg1, _) = run_solo c cfg0 0 in
   let runs = ref 0 and mism = ref 0 in
+  let seen : (string, unit) Hashtbl.t = Hashtbl.create 1024 and nontriv = ref 0 in
   let continue = ref true in
   let cur_n = ref "" and sline = ref [] and cline = ref "" and hline = ref "" and fline = ref None
   and aline = ref None and vline = ref None in
   let finish_run () =
     incr runs; incr total_runs;
+    if not (Hashtbl.mem seen !cline) then begin
+      Hashtbl.add seen !cline ();
+      if List.exists (fun x -> x <> "0") (split_ws !cline) then incr nontriv
+    end;
     (* replay *)
     let kcount = Array.make (nthr + 2) 0 in
     let buf = Buffer.create 256 in
@@ -85,8 +90,9 @@ let process_runs (type sh ts l op ret) (c : (sh, ts, l, op, ret) comp) (s : scn)
          | Some (cfg', evs) -> add_evs evs; go cfg' rest (pos + 1)
          | None -> Error pos)
     in
-    let res = go cfg1 !sline 0 in
-    let model_h = Buffer.contents buf in
+    let fine = List.mem_assoc "fine" s.opts in
+    let res = if fine then Ok cfg1 else go cfg1 !sline 0 in
+    let model_h = if fine then !hline else Buffer.contents buf in
     let impl_h = !hline in
     let report kind extra =
       incr mism; incr mismatches;
@@ -98,7 +104,7 @@ let process_runs (type sh ts l op ret) (c : (sh, ts, l, op, ret) comp) (s : scn)
      | Ok cfg ->
        if model_h <> impl_h then report "history" ""
        else (match !fline, !aline with
-           | Some f, None ->
+           | Some f, None when not fine ->
              let (_, evs) = run_solo c cfg (nthr + 1) in
              let rets = List.filter_map (function ERet (_, _, r) -> Some r | _ -> None) evs in
              let d = c.final_digest rets in
@@ -133,6 +139,7 @@ let process_runs (type sh ts l op ret) (c : (sh, ts, l, op, ret) comp) (s : scn)
       else if n >= 5 && String.sub line 0 5 = "DONE " then begin
         Printf.printf "RES %s runs=%d mismatches=%d %s\n" s.id !runs !mism
           (String.concat " " (List.tl (List.tl (split_ws line))));
+        Printf.printf "NT %d\n" !nontriv;
         continue := false
       end
   done
@@ -157,29 +164,36 @@ let count_offers pre threads =
   List.length pre + List.fold_left (fun acc th ->
       acc + List.length (List.filter (fun tok -> String.length tok > 0 && tok.[0] = 'o') th)) 0 threads
 
-let queue_final _ pre threads =
-  Size :: List.init (count_offers pre threads + 1) (fun _ -> Poll)
+let queue_final iter _ pre threads =
+  let n = count_offers pre threads + 1 in
+  (Size :: (if iter then IterNew :: List.init n (fun _ -> ItNext) else []))
+  @ List.init n (fun _ -> Poll)
 
-let queue_digest rets =
+let queue_digest iter rets =
+  let rec take = function
+    | RVal O :: _ | [] -> []
+    | RVal v :: r -> string_of_int (int_of_nat v) :: take r
+    | _ :: r -> take r in
+  let rec drop k l = if k <= 0 then l else match l with [] -> [] | _ :: r -> drop (k - 1) r in
   match rets with
-  | RSize n :: polls ->
-    let rec take = function
-      | RVal O :: _ | [] -> []
-      | RVal v :: r -> string_of_int (int_of_nat v) :: take r
-      | _ :: r -> take r in
-    Printf.sprintf "s%d d%s" (int_of_n n) (String.concat "," (take polls))
+  | RSize n :: rest ->
+    if iter then
+      let rest = (match rest with RUnit :: r -> r | r -> r) in
+      let k = List.length rest / 2 in
+      Printf.sprintf "s%d t%s d%s" (int_of_n n) (String.concat "," (take rest)) (String.concat "," (take (drop k rest)))
+    else Printf.sprintf "s%d t d%s" (int_of_n n) (String.concat "," (take rest))
   | _ -> "?"
 
 let jdk_comp = {
   mach = jdk; sh0 = (fun _ _ -> qinit); ts0 = iter0; parse_op = parse_qop; show_ret = show_qret;
   prefill = (fun _ pre -> List.map (fun v -> Offer (nat_of_int v)) pre);
-  final_prog = queue_final; final_digest = queue_digest;
+  final_prog = queue_final true; final_digest = queue_digest true;
 }
 
 let mutex_comp = {
   mach = mutexq; sh0 = (fun _ _ -> minit); ts0 = (); parse_op = parse_qop; show_ret = show_qret;
   prefill = (fun _ pre -> List.map (fun v -> Offer (nat_of_int v)) pre);
-  final_prog = queue_final; final_digest = queue_digest;
+  final_prog = queue_final false; final_digest = queue_digest false;
 }
 
 (* ---------------------------------------------------------------- main loop *)
